@@ -8,6 +8,7 @@ import (
 	"reflect"
 	"strconv"
 	"strings"
+	"unicode/utf8"
 )
 
 var imports []string
@@ -210,7 +211,7 @@ func (s *JavaFullListener) EnterInterfaceMethodDeclaration(ctx *parser.Interface
 		StartLine:         bodyDecl.Identifier().GetStart().GetLine(),
 		StartLinePosition: bodyDecl.Identifier().GetStart().GetColumn(),
 		StopLine:          ctx.GetStop().GetLine(),
-		StopLinePosition:  bodyDecl.Identifier().GetStart().GetColumn() + len(name),
+		StopLinePosition:  bodyDecl.Identifier().GetStart().GetColumn() + utf8.RuneCountInString(name), // columns count characters
 	}
 
 	method := &core_domain.CodeFunction{Name: name, ReturnType: typeType, Position: position}
@@ -346,7 +347,7 @@ func (s *JavaFullListener) EnterMethodDeclaration(ctx *parser.MethodDeclarationC
 		StartLine:         ctx.Identifier().GetStart().GetLine(), // the line of the name, as the columns
 		StartLinePosition: ctx.Identifier().GetStart().GetColumn(), // different
 		StopLine:          ctx.GetStop().GetLine(),
-		StopLinePosition:  ctx.Identifier().GetStart().GetColumn() + len(name),
+		StopLinePosition:  ctx.Identifier().GetStart().GetColumn() + utf8.RuneCountInString(name), // columns count characters
 	}
 
 	method := &core_domain.CodeFunction{
@@ -524,7 +525,7 @@ func BuildPosition(ctx *antlr.BaseParserRuleContext, nodeName string) core_domai
 		StartLine:         ctx.GetStart().GetLine(),
 		StartLinePosition: ctx.GetStart().GetColumn(),
 		StopLine:          ctx.GetStop().GetLine(),
-		StopLinePosition:  ctx.GetStop().GetColumn() + len(nodeName),
+		StopLinePosition:  ctx.GetStop().GetColumn() + utf8.RuneCountInString(nodeName),
 	}
 
 	return position
